@@ -32,11 +32,13 @@ class Env(object):
         self.itvars = dict(itvars or {})
         self.perturb = perturb     # canary: deliberately wrong R
         self.vars = {}             # name -> z3 var (shared dict passed around)
+        self.oob = {}
 
     def child(self, owner=None, itvars=None):
         e = Env(self.prog, self.world, self.owner if owner is None else owner,
                 self.itvars if itvars is None else itvars, self.perturb)
         e.vars = self.vars
+        e.oob = self.oob
         return e
 
     # ---- path resolution
@@ -45,6 +47,12 @@ class Env(object):
         for p in path:
             if isinstance(p, list) and p[0] == "idx":
                 i = self.itvars[p[1]][1] + (p[2] if len(p) > 2 else 0)
+                if i < 0:
+                    # Python list semantics of l[i-1] at i == 0 (such references sit under an index guard)
+                    try:
+                        i += len(P.get_node(self.world, tuple(out))["elems"])
+                    except Exception:
+                        pass
                 out.append(i)
             else:
                 out.append(p)
@@ -60,7 +68,16 @@ class Env(object):
             if lst.get("size_used"):
                 return self._var(abspath, 32), 32, False
             return z3.BitVecVal(len(lst["elems"]), 32), 32, False
-        n = self.node(abspath)
+        try:
+            n = self.node(abspath)
+        except IndexError:
+            # an element reference beyond the list (only meaningful under a guard that is false there): any value
+            nm = "oob/" + vname(abspath)
+            if nm not in self.oob:
+                par = self.node(abspath[:-1]) if not isinstance(abspath[-1], str) else None
+                w = par["elem"][1] if par and par["k"] == "l" and par["elem"][0] in ("u", "s") else 32
+                self.oob[nm] = (z3.BitVec(nm, w), w, bool(par and par["elem"][0] == "s"))
+            return self.oob[nm]
         if n["k"] not in ("s", "e"):
             raise Exception("not a leaf: %s" % (abspath,))
         if n.get("used"):
@@ -72,6 +89,15 @@ class Env(object):
         if nm not in self.vars:
             self.vars[nm] = z3.BitVec(nm, w)
         return self.vars[nm]
+
+
+def size_guard(env, lp, i):
+    """z3 condition 'element i of the list at absolute path lp exists' (True for fixed-size lists)"""
+    lst = env.node(lp)
+    if lst.get("size_used"):
+        sz, _, _ = env.leaf_term(tuple(lp) + ("size",))
+        return z3.ULT(z3.BitVecVal(i, 32), sz)
+    return z3.BoolVal(True)
 
 
 def ext(t, w, signed):
@@ -189,8 +215,8 @@ def ev(e, env, ctx=0):
         lst = env.node(lp)
         terms = []
         for i in range(len(lst["elems"])):
-            terms.append(truth(["==", e[1], ["f", list(e[2]) + [i]]], env))
-        r = z3.Or(*terms) if terms else z3.BoolVal(True)
+            terms.append(z3.And(size_guard(env, lp, i), truth(["==", e[1], ["f", list(e[2]) + [i]]], env)))
+        r = z3.Or(*terms) if terms else z3.BoolVal(False if lst.get("size_used") else True)
         return b2v(r if k == "in_list" else z3.Not(r))
     if k == "sum":
         lp = env.abspath(e[1])
@@ -200,7 +226,7 @@ def ev(e, env, ctx=0):
         acc = z3.BitVecVal(0, W)
         for i in range(len(lst["elems"])):
             t, ew, es = env.leaf_term(lp + (i,))
-            acc = acc + ext(t, W, es and s)
+            acc = acc + z3.If(size_guard(env, lp, i), ext(t, W, es and s), z3.BitVecVal(0, W))
         return acc
     if k == "product":
         lp = env.abspath(e[1])
@@ -210,7 +236,10 @@ def ev(e, env, ctx=0):
         acc = z3.BitVecVal(1 if lst["elems"] else 0, W)
         for i in range(len(lst["elems"])):
             t, ew, es = env.leaf_term(lp + (i,))
-            acc = acc * ext(t, W, es and s)
+            acc = acc * z3.If(size_guard(env, lp, i), ext(t, W, es and s), z3.BitVecVal(1, W))
+        if lst.get("size_used"):
+            sz, _, _ = env.leaf_term(tuple(lp) + ("size",))
+            acc = z3.If(sz == 0, z3.BitVecVal(0, W), acc)
         return acc
     if k == "dyn":
         return b2v(block_formula(env, env.owner, e[1], dynamic=True))
@@ -295,12 +324,12 @@ def stmts_formula(stmts, env, softs=None, guards=()):
                     lp = env.abspath(a[1])
                     lst = env.node(lp)
                     for i in range(len(lst["elems"])):
-                        terms.append(["f", list(a[1]) + [i]])
+                        terms.append((["f", list(a[1]) + [i]], size_guard(env, lp, i)))
                 else:
-                    terms.append(a)
+                    terms.append((a, z3.BoolVal(True)))
             for i in range(len(terms)):
                 for j in range(i + 1, len(terms)):
-                    acc.append(truth(["!=", terms[i], terms[j]], env))
+                    acc.append(z3.Implies(z3.And(terms[i][1], terms[j][1]), truth(["!=", terms[i][0], terms[j][0]], env)))
         elif k == "unique_vec":
             lists = [env.node(env.abspath(p)) for p in s[1]]
             for i in range(len(s[1])):
@@ -316,7 +345,8 @@ def stmts_formula(stmts, env, softs=None, guards=()):
             for i in range(len(lst["elems"])):
                 iv = dict(env.itvars)
                 iv[s[2]] = (lp, i)
-                acc.append(stmts_formula(s[3], env.child(itvars=iv), softs, guards))
+                g = size_guard(env, lp, i)
+                acc.append(z3.Implies(g, stmts_formula(s[3], env.child(itvars=iv), softs, guards + ((g,) if lst.get("size_used") else ()))))
         elif k == "dist":
             terms = []
             for item, w in s[2]:
